@@ -32,6 +32,8 @@ pub struct Doc {
     pub fields: Vec<(K, V)>,
     /// text only: bytes inserted after the first top-level field (a comment or a run of blanks)
     pub gap: Vec<u8>,
+    /// the gap goes right behind the opening brace of the first field's value instead
+    pub inner: bool,
 }
 
 pub const T_A: u16 = 0x0800;
@@ -76,23 +78,23 @@ fn payload_esc(len: usize) -> Vec<u8> {
 fn fval(i: usize) -> V {
     match i % 3 { 0 => V::I(i as i32), 1 => V::Q(named("s", i)), _ => V::U(named("w", i)) }
 }
-fn with_sibling(k: K, v: V) -> Doc { Doc { fields: vec![(k, v), (K::Tok(T_Z), V::I(1))], gap: vec![] } }
+fn with_sibling(k: K, v: V) -> Doc { Doc { fields: vec![(k, v), (K::Tok(T_Z), V::I(1))], gap: vec![], inner: false } }
 
 /// shapes: see the match arms; `n` is the primary size, `m` a secondary one
 pub fn build(shape: &str, n: usize, m: usize) -> Option<Doc> {
     let a = || K::Tok(T_A);
     Some(match shape {
-        "fields" => Doc { fields: (0..n).map(|i| (K::U(named("k", i)), fval(i))).collect(), gap: vec![] },
-        "fields-v" => Doc { fields: (0..n).map(|i| (K::U(named("k", i)), V::Q(payload(m, i)))).collect(), gap: vec![] },
-        "intfields" => Doc { fields: (0..n).map(|i| (K::U(named("k", i)), V::I(i as i32))).collect(), gap: vec![] },
-        "tokfields" => Doc { fields: (0..n).map(|i| (K::Tok(tokid(i)), V::I(i as i32))).collect(), gap: vec![] },
-        "qfields" => Doc { fields: (0..n).map(|i| (K::Q(named("k", i)), V::Q(named("s", i)))).collect(), gap: vec![] },
-        "ifields" => Doc { fields: (0..n).map(|i| (K::I(i as i32), V::I(-(i as i32)))).collect(), gap: vec![] },
+        "fields" => Doc { fields: (0..n).map(|i| (K::U(named("k", i)), fval(i))).collect(), gap: vec![], inner: false },
+        "fields-v" => Doc { fields: (0..n).map(|i| (K::U(named("k", i)), V::Q(payload(m, i)))).collect(), gap: vec![], inner: false },
+        "intfields" => Doc { fields: (0..n).map(|i| (K::U(named("k", i)), V::I(i as i32))).collect(), gap: vec![], inner: false },
+        "tokfields" => Doc { fields: (0..n).map(|i| (K::Tok(tokid(i)), V::I(i as i32))).collect(), gap: vec![], inner: false },
+        "qfields" => Doc { fields: (0..n).map(|i| (K::Q(named("k", i)), V::Q(named("s", i)))).collect(), gap: vec![], inner: false },
+        "ifields" => Doc { fields: (0..n).map(|i| (K::I(i as i32), V::I(-(i as i32)))).collect(), gap: vec![], inner: false },
         "mixfields" => Doc { fields: (0..n).map(|i| {
             let k = match i % 4 { 0 => K::Tok(tokid(i)), 1 => K::Q(named("k", i)), 2 => K::I(i as i32), _ => K::U(named("u", i)) };
             let v = match (i / 4) % 7 { 0 => V::I(i as i32), 1 => V::Q(named("s", i)), 2 => V::F(i as i32), 3 => V::U32(i as u32), 4 => V::B(i % 8 < 4), 5 => V::U(named("w", i)),
                 _ => V::Arr(vec![V::I(i as i32), V::I(1)]) };
-            (k, v) }).collect(), gap: vec![] },
+            (k, v) }).collect(), gap: vec![], inner: false },
         "arr-i32" => with_sibling(a(), V::Arr((0..n).map(|i| V::I(i as i32)).collect())),
         "arr-q" => with_sibling(a(), V::Arr((0..n).map(|i| V::Q(named("s", i))).collect())),
         "arr-f32" => with_sibling(a(), V::Arr((0..n).map(|i| V::F(i as i32)).collect())),
@@ -101,7 +103,7 @@ pub fn build(shape: &str, n: usize, m: usize) -> Option<Doc> {
         "arr-long" => with_sibling(a(), V::Arr((0..n).map(|i| V::Q(payload_esc_free(m, i))).collect())),
         "wide" => with_sibling(a(), V::Obj((0..n).map(|i| (K::Tok(tokid(i)), V::I(i as i32))).collect())),
         "wide-u" => with_sibling(a(), V::Obj((0..n).map(|i| (K::U(named("k", i)), fval(i))).collect())),
-        "qkey-objs" => Doc { fields: (0..n).map(|i| (K::Q(named("k", i)), V::Obj(vec![(K::Tok(tokid(i)), if i % 2 == 0 { V::B(true) } else { V::Q(named("s", i)) }), (K::Tok(T_X), V::I(i as i32))]))).collect(), gap: vec![] },
+        "qkey-objs" => Doc { fields: (0..n).map(|i| (K::Q(named("k", i)), V::Obj(vec![(K::Tok(tokid(i)), if i % 2 == 0 { V::B(true) } else { V::Q(named("s", i)) }), (K::Tok(T_X), V::I(i as i32))]))).collect(), gap: vec![], inner: false },
         "depth-obj" => { let mut v = V::I(1); for _ in 0..n { v = V::Obj(vec![(a(), v)]); } with_sibling(a(), v) }
         "depth-arr" => { let mut v = V::I(1); for _ in 0..n { v = V::Arr(vec![v]); } with_sibling(a(), v) }
         "depth-mix" => {
@@ -126,12 +128,18 @@ pub fn build(shape: &str, n: usize, m: usize) -> Option<Doc> {
                 if i % 3 == 0 { f.push((K::Tok(T_Y), V::Q(named("s", i)))); }
             }
             f.push((K::Tok(T_Z), V::I(1)));
-            Doc { fields: f, gap: vec![] }
+            Doc { fields: f, gap: vec![], inner: false }
         }
         "comment" => { let mut g = vec![b' ', b'#']; g.extend(std::iter::repeat(b'c').take(n.saturating_sub(1))); g.push(b'\n');
-            Doc { fields: vec![(a(), V::I(1)), (K::Tok(T_Z), V::I(1))], gap: g } }
+            Doc { fields: vec![(a(), V::I(1)), (K::Tok(T_Z), V::I(1))], gap: g, inner: false } }
         "blank" => { let g: Vec<u8> = (0..n).map(|i| b" \t\n\r"[i % 4]).collect();
-            Doc { fields: vec![(a(), V::I(1)), (K::Tok(T_Z), V::I(1))], gap: g } }
+            Doc { fields: vec![(a(), V::I(1)), (K::Tok(T_Z), V::I(1))], gap: g, inner: false } }
+        // a comment / blank run INSIDE a container (skip_container has to cross it)
+        "comment-in" | "blank-in" => {
+            let g: Vec<u8> = if shape == "comment-in" { let mut g = vec![b' ', b'#']; g.extend((0..n.saturating_sub(1)).map(|i| b"c{}\"# "[i % 6])); g.push(b'\n'); g } else { (0..n).map(|i| b" \t\n\r"[i % 4]).collect() };
+            let mut d = with_sibling(a(), V::Obj(vec![(K::Tok(T_X), V::I(1)), (K::Tok(T_Y), V::Arr(vec![V::I(2), V::Q(b"}".to_vec())]))]));
+            d.gap = g; d.inner = true; d
+        }
         _ => return None,
     })
 }
@@ -162,10 +170,12 @@ fn lay(l: usize) -> Lay {
         _ => Lay { eq: b"=", sep: b"\n", open: b"{ ", close: b" }", isep: b" " },
     }
 }
-fn v_text(v: &V, l: &Lay, out: &mut Vec<u8>) {
+fn v_text(v: &V, l: &Lay, out: &mut Vec<u8>) { v_text_gap(v, l, out, &[]) }
+fn v_text_gap(v: &V, l: &Lay, out: &mut Vec<u8>, gap: &[u8]) {
     match v {
         V::Obj(fs) => {
             out.extend_from_slice(l.open);
+            out.extend_from_slice(gap);
             for (i, (k, v)) in fs.iter().enumerate() {
                 if i > 0 { out.extend_from_slice(l.isep); }
                 let (b, q) = k_text(k); put_scalar(out, &b, q); out.extend_from_slice(l.eq); v_text(v, l, out);
@@ -174,6 +184,7 @@ fn v_text(v: &V, l: &Lay, out: &mut Vec<u8>) {
         }
         V::Arr(vs) => {
             out.extend_from_slice(l.open);
+            out.extend_from_slice(gap);
             for (i, v) in vs.iter().enumerate() { if i > 0 { out.extend_from_slice(l.isep); } v_text(v, l, out); }
             out.extend_from_slice(l.close);
         }
@@ -187,8 +198,9 @@ pub fn render_text(doc: &Doc, layout: usize) -> (Vec<u8>, Vec<usize>) {
     let mut offs = vec![];
     for (i, (k, v)) in doc.fields.iter().enumerate() {
         offs.push(out.len());
-        let (b, q) = k_text(k); put_scalar(&mut out, &b, q); out.extend_from_slice(l.eq); v_text(v, &l, &mut out);
-        if i == 0 { out.extend_from_slice(&doc.gap); }
+        let (b, q) = k_text(k); put_scalar(&mut out, &b, q); out.extend_from_slice(l.eq);
+        if i == 0 && doc.inner { v_text_gap(v, &l, &mut out, &doc.gap); } else { v_text(v, &l, &mut out); }
+        if i == 0 && !doc.inner { out.extend_from_slice(&doc.gap); }
         out.extend_from_slice(l.sep);
     }
     offs.push(out.len());
@@ -502,6 +514,7 @@ fn run2(w: &[&str], cx: &mut Cx) -> Option<String> {
         "tread" => op_tread(w, cx),
         "bread" => op_bread(w, cx),
         "tskip" => op_tskip(w, cx),
+        "tskipu" => op_tskipu(w, cx),
         "bskip" => op_bskip(w, cx),
         _ => run3(w, cx),
     }
@@ -724,7 +737,9 @@ fn op_tskip(w: &[&str], cx: &mut Cx) -> Option<String> {
         for &open in &points {
             let resume = after_close(&exp, open, |e| *e == TL::Open, |e| *e == TL::Close);
             // tokens read before the skip must fit, as must those after it
-            let need = exp[..=open].iter().chain(exp[resume..].iter()).map(tl_size).max().unwrap_or(1) + 2;
+            let mut need = exp[..=open].iter().chain(exp[resume..].iter()).map(tl_size).max().unwrap_or(1) + 2;
+            // a comment that next() has to cross (it precedes token 3) is carried over whole; inside the skipped container it is not
+            if doc.gap.contains(&b'#') && (open >= 3 || resume <= 3) { need = need.max(doc.gap.len() + 2); }
             let mut configs: Vec<(Option<usize>, Vec<Step>)> = vec![(Some(0), vec![])];   // Some(0) = slice reader
             configs.extend(reader_configs(&[need.max(16), need.max(64), need.max(4096)]));
             for (cap, sched) in configs {
@@ -1048,7 +1063,7 @@ fn op_de(w: &[&str], cx: &mut Cx) -> Option<String> {
     }}; }
     match w[2] {
         "vec" => fam!(build("arr-i32", n, 0)?, VecS { a: (0..n as i32).collect(), z: 1 }, [0usize, 1, 2]),
-        "map" => fam!(Doc { fields: (0..n).map(|i| (K::Q(named("k", i)), V::I(i as i32))).collect(), gap: vec![] }, (0..n).map(|i| (format!("k{}", i), i as i32)).collect::<HashMap<String, i32>>(), [0usize, 2]),
+        "map" => fam!(Doc { fields: (0..n).map(|i| (K::Q(named("k", i)), V::I(i as i32))).collect(), gap: vec![], inner: false }, (0..n).map(|i| (format!("k{}", i), i as i32)).collect::<HashMap<String, i32>>(), [0usize, 2]),
         "mapin" => fam!(with_sibling(K::Tok(T_A), V::Obj((0..n).map(|i| (K::Q(named("k", i)), V::I(i as i32))).collect())), MapIn { a: (0..n).map(|i| (format!("k{}", i), i as i32)).collect(), z: 1 }, [0usize, 1]),
         "str" => fam!(build("long-q", n, 0)?, StrS { a: String::from_utf8(payload(n, 1)).unwrap(), z: 1 }, [0usize, 1]),
         "ustr" => fam!(build("long-u", n, 0)?, StrS { a: String::from_utf8(payload(n, 0)).unwrap(), z: 1 }, [0usize, 1]),
@@ -1083,7 +1098,7 @@ fn op_derive(w: &[&str], cx: &mut Cx) -> Option<String> {
         if i < ny { f.push((K::Tok(T_Y), V::I(1000 + i as i32))); }
         if i == nx.max(ny) / 2 { f.push((K::Tok(T_Z), V::I(1))); }
     }
-    let doc = Doc { fields: f, gap: vec![] };
+    let doc = Doc { fields: f, gap: vec![], inner: false };
     let exp = DupS { x: (0..nx as i32).collect(), y: 1000 + ny as i32 - 1, z: 1 };
     let what = format!("derive {} n={}", w[2], n);
     let mut paths = 0;
@@ -1101,6 +1116,7 @@ fn run4(w: &[&str], cx: &mut Cx) -> Option<String> {
     match w[1] {
         "dom" => op_dom(w, cx),
         "json" => op_json(w, cx),
+        "jsonnum" => op_jsonnum(w, cx),
         "wtape" | "wcalls" => op_writer(w, cx),
         _ => run5(w, cx),
     }
@@ -1398,17 +1414,14 @@ fn op_writer(w: &[&str], cx: &mut Cx) -> Option<String> {
         wr.into_inner()
     } else {
         // raw payloads with quotes and backslashes go through write_quoted's escaping
-        if w[2] == "long-qe" || w[2] == "long-in" { /* payload_esc already holds `\"`: written raw it gains one more level */ }
         let mut wr = mk();
         let mut err = None;
-        for typed in [true] {
-            for (k, v) in &doc.fields {
-                if let Err(e) = wr_key(&mut wr, k).and_then(|_| wr_val(&mut wr, v, typed, 0, &mut err)) { cx.bad("scale-writer", format!("{}: writer call failed: {}", what, e)); return Some("err".into()); }
-            }
+        for (k, v) in &doc.fields {
+            if let Err(e) = wr_key(&mut wr, k).and_then(|_| wr_val(&mut wr, v, true, 0, &mut err)) { cx.bad("scale-writer", format!("{}: writer call failed: {}", what, e)); return Some("err".into()); }
         }
         if let Some(e) = err { cx.bad("scale-writer-depth", format!("{}: {}", what, e)); }
         if wr.depth() != 0 { cx.bad("scale-writer-depth", format!("{}: depth() {} after the last call", what, wr.depth())); }
-        doc = Doc { fields: doc.fields.iter().map(|(k, v)| (match k { K::Q(b) => K::Q(esc_ref(b)), o => o.clone() }, escaped_doc(v))).collect(), gap: vec![] };
+        doc = Doc { fields: doc.fields.iter().map(|(k, v)| (match k { K::Q(b) => K::Q(esc_ref(b)), o => o.clone() }, escaped_doc(v))).collect(), gap: vec![], inner: false };
         wr.into_inner()
     };
     let exp = text_tape_exp(&doc);
@@ -1446,4 +1459,435 @@ fn op_writer(w: &[&str], cx: &mut Cx) -> Option<String> {
     Some(format!("ok bytes={} lines={}", out.len(), lines))
 }
 
-fn run5(_w: &[&str], _cx: &mut Cx) -> Option<String> { None }
+
+// ------------------------------------------------------------------------------------------
+// leaves: numbers (C11), decoding (C12), dates (C13)
+
+fn run5(w: &[&str], cx: &mut Cx) -> Option<String> {
+    match w[1] {
+        "num" => op_num(w, cx),
+        "decode" => op_decode(w, cx),
+        "date" => op_date(w, cx),
+        _ => run6(w, cx),
+    }
+}
+
+use jomini::Scalar;
+
+fn ulps(a: f64, b: f64) -> u64 { if a == b { return 0; } if (a < 0.0) != (b < 0.0) { return u64::MAX; } (a.to_bits() as i64).wrapping_sub(b.to_bits() as i64).unsigned_abs() }
+
+/// x-scale num zeros|digits|frac <n>
+fn op_num(w: &[&str], cx: &mut Cx) -> Option<String> {
+    let n = num(w.get(3)?)?;
+    let mut checked = 0;
+    match w[2] {
+        // <sign><n zeros><digits>: all three conversions agree with the unpadded form, and the integers with Rust's parse
+        "zeros" => {
+            for (short_s, long_s) in zeros_cases(n) {
+                {
+                    let (sign, base) = if short_s.starts_with('-') { ("-", &short_s[1..]) } else if short_s.starts_with('+') { ("+", &short_s[1..]) } else { ("", &short_s[..]) };
+                    let (s, l) = (Scalar::new(short_s.as_bytes()), Scalar::new(long_s.as_bytes()));
+                    let what = format!("num zeros n={} base {}", n, short_s);
+                    if s.to_u64() != l.to_u64() { cx.bad("scale-number", format!("{}: to_u64 {:?} without the zeros, {:?} with them", what, s.to_u64(), l.to_u64())); }
+                    if s.to_i64() != l.to_i64() { cx.bad("scale-number", format!("{}: to_i64 {:?} without the zeros, {:?} with them", what, s.to_i64(), l.to_i64())); }
+                    match (s.to_f64(), l.to_f64()) {
+                        (Ok(a), Ok(b)) if a.to_bits() == b.to_bits() => {}
+                        (Err(a), Err(b)) if a == b => {}
+                        (a, b) => cx.bad("scale-number", format!("{}: to_f64 {:?} without the zeros, {:?} with them", what, a, b)),
+                    }
+                    if let Ok(v) = l.to_f64() { if let Err(e) = f64_ok(&long_s, v) { cx.bad("scale-number", format!("{}: to_f64 of the padded form {}", what, e)); } }
+                    if !base.contains('.') {
+                        let ru = if sign == "-" { None } else { long_s.trim_start_matches('+').parse::<u64>().ok() };
+                        if l.to_u64().ok() != ru { cx.bad("scale-number", format!("{}: to_u64 {:?}, Rust's parse says {:?}", what, l.to_u64(), ru)); }
+                        let ri = long_s.parse::<i64>().ok();
+                        if l.to_i64().ok() != ri { cx.bad("scale-number", format!("{}: to_i64 {:?}, Rust's parse says {:?}", what, l.to_i64(), ri)); }
+                    }
+                    checked += 1;
+                }
+            }
+        }
+        // n-digit integers: refused exactly when out of range; to_f64 never NaN / inf, refuses what f64 cannot hold exactly
+        "digits" => {
+            for first in [b'1', b'9'] { for rest in [b'0', b'9', b'5'] { for sign in ["", "-", "+"] {
+                let mut t = sign.as_bytes().to_vec(); t.push(first); t.extend(std::iter::repeat(rest).take(n - 1));
+                let txt = String::from_utf8(t.clone()).unwrap();
+                let sc = Scalar::new(&t);
+                let what = format!("num digits n={} {}{}{}..", n, sign, first as char, rest as char);
+                let ru = if sign == "-" { None } else { txt.trim_start_matches('+').parse::<u64>().ok() };
+                if sc.to_u64().ok() != ru { cx.bad("scale-number", format!("{}: to_u64 {:?}, Rust's parse says {:?}", what, sc.to_u64(), ru)); }
+                let ri = txt.parse::<i64>().ok();
+                if sc.to_i64().ok() != ri { cx.bad("scale-number", format!("{}: to_i64 {:?}, Rust's parse says {:?}", what, sc.to_i64(), ri)); }
+                match sc.to_f64() {
+                    Ok(v) => {
+                        let r: f64 = txt.parse().unwrap();
+                        if !v.is_finite() { cx.bad("scale-number", format!("{}: to_f64 returned {}", what, v)); }
+                        else if txt.trim_start_matches(|c| c == '+' || c == '-').parse::<u64>().map(|u| u > (1 << 53)).unwrap_or(true) { cx.bad("scale-number", format!("{}: to_f64 accepted an integer above 2^53: {}", what, v)); }
+                        else if v != r { cx.bad("scale-number", format!("{}: to_f64 {} expected {}", what, v, r)); }
+                    }
+                    Err(_) => { if let Ok(u) = txt.trim_start_matches(|c| c == '+' || c == '-').parse::<u64>() { if u < (1 << 53) { cx.bad("scale-number", format!("{}: to_f64 refuses an integer below 2^53", what)); } } }
+                }
+                checked += 1;
+            }}}
+        }
+        // 0.<n digits>, <digits>.<n digits>, 0.<n zeros>5: Ok within 2 ulp of the correctly rounded value (exact for few digits), or refused; never NaN / inf
+        "frac" => {
+            for txt in frac_cases(n) {
+                let what = format!("num frac n={} {}..", n, &txt[..txt.len().min(12)]);
+                let sc = Scalar::new(txt.as_bytes());
+                if sc.to_u64().is_ok() || sc.to_i64().is_ok() { cx.bad("scale-number", format!("{}: integer conversion accepts a '.'", what)); }
+                if let Ok(v) = sc.to_f64() {
+                    if let Err(e) = f64_ok(&txt, v) { cx.bad("scale-number", format!("{}: to_f64 {}", what, e)); }
+                    cx.obs.count("scale:num-frac-accepted");
+                } else { cx.obs.count("scale:num-frac-refused"); }
+                checked += 1;
+            }
+        }
+        _ => return None,
+    }
+    Some(format!("ok checked={}", checked))
+}
+
+/// the fraction strings of `num frac` / `jsonnum frac`
+fn frac_cases(n: usize) -> Vec<String> {
+    let mut v = vec![];
+    for int in ["0", "", "7", "123456"] { for sign in ["", "-"] {
+        for rest in ['0', '5', '9'] { v.push(format!("{}{}.{}", sign, int, rest.to_string().repeat(n))); }
+        v.push(format!("{}{}.{}5", sign, int, "0".repeat(n)));          // 0.000..05 must not come out as 5 or 0.5
+        v.push(format!("{}{}.5{}", sign, int, "0".repeat(n)));          // 0.5000..0
+        v.push(format!("{}{}.{}125", sign, int, "0".repeat(n.saturating_sub(3))));
+    }}
+    v
+}
+fn zeros_cases(n: usize) -> Vec<(String, String)> {
+    let bases: [&str; 20] = ["0", "1", "9", "255", "256", "65535", "65536", "4294967295", "9007199254740991", "9007199254740992", "9007199254740993", "9223372036854775807", "9223372036854775808",
+        "18446744073709551615", "18446744073709551616", "99999999999999999999", "1.5", "0.125", "123456.789", "20405029553322.015"];
+    let mut v = vec![];
+    for base in bases { for sign in ["", "+", "-"] { v.push((format!("{}{}", sign, base), format!("{}{}{}", sign, "0".repeat(n), base))); } }
+    v
+}
+/// an accepted to_f64 / JSON number against Rust's own parse: finite, exact when the significant digits are few, else within 2 ulp
+fn f64_ok(txt: &str, v: f64) -> Result<(), String> {
+    let r: f64 = txt.parse().map_err(|_| format!("accepted {:?}.. which Rust's parse refuses", &txt[..txt.len().min(16)]))?;
+    let digits: String = txt.chars().filter(|c| c.is_ascii_digit()).collect();
+    let small = digits.trim_start_matches('0').len() <= 15;
+    if !v.is_finite() { return Err(format!("returned {}", v)); }
+    if small && v != r { return Err(format!("{:e} expected the correctly rounded {:e}", v, r)); }
+    if ulps(v, r) > 2 && !(v == 0.0 && r == 0.0) { return Err(format!("{:e} is {} ulp from {:e}", v, ulps(v, r), r)); }
+    Ok(())
+}
+
+const W1252_HI: [u16; 32] = [0x20AC, 0x81, 0x201A, 0x0192, 0x201E, 0x2026, 0x2020, 0x2021, 0x02C6, 0x2030, 0x0160, 0x2039, 0x0152, 0x8D, 0x017D, 0x8F,
+    0x90, 0x2018, 0x2019, 0x201C, 0x201D, 0x2022, 0x2013, 0x2014, 0x02DC, 0x2122, 0x0161, 0x203A, 0x0153, 0x9D, 0x017E, 0x0178];
+fn trim_ref(d: &[u8]) -> &[u8] { let mut e = d.len(); while e > 0 && matches!(d[e - 1], b' ' | b'\t' | b'\n' | b'\r' | 0x0c) { e -= 1; } &d[..e] }
+fn w1252_ref(d: &[u8]) -> String {
+    trim_ref(d).iter().filter(|c| **c != b'\\').map(|&c| if c < 0x80 { c as char } else if c < 0xA0 { char::from_u32(W1252_HI[(c - 0x80) as usize] as u32).unwrap() } else { char::from_u32(c as u32).unwrap() }).collect()
+}
+fn utf8_ref(d: &[u8]) -> String { String::from_utf8_lossy(&trim_ref(d).iter().copied().filter(|c| *c != b'\\').collect::<Vec<u8>>()).into_owned() }
+
+/// x-scale decode <kind> <n> <pos>: n bytes of ASCII with one special byte sequence at <pos> (`last` = n - len)
+fn op_decode(w: &[&str], cx: &mut Cx) -> Option<String> {
+    let n = num(w.get(3)?)?;
+    let special: &[u8] = match w[2] { "plain" => b"", "esc" => b"\\\"", "bs" => b"\\", "hi" => &[0xE9], "c1" => &[0x81], "euro" => &[0x80], "utf8" => "é".as_bytes(), "utf8-3" => "€".as_bytes(), "bad" => &[0xC3], "ws" => b" \t\r\n", _ => return None };
+    let pos = match *w.get(4)? { "last" => n - special.len(), p => num(p)? };
+    if pos + special.len() > n { return None; }
+    let mut d = payload(n, 5);
+    d[pos..pos + special.len()].copy_from_slice(special);
+    let what = format!("decode {} n={} pos={}", w[2], n, pos);
+    let plain = !d.iter().any(|c| *c == b'\\' || *c >= 0x80);
+    for (name, got, exp) in [("windows-1252", W1252::decode(&d), w1252_ref(&d)), ("utf-8", jomini::Utf8Encoding::decode(&d), utf8_ref(&d))] {
+        if *got != exp {
+            let p = got.bytes().zip(exp.bytes()).position(|(a, b)| a != b).unwrap_or(got.len().min(exp.len()));
+            cx.bad("scale-decode", format!("{} {}: output differs from the reference mapping at byte {} ({} vs {} bytes)", what, name, p, got.len(), exp.len()));
+        }
+        if plain && !matches!(got, std::borrow::Cow::Borrowed(_)) { cx.bad("scale-decode", format!("{} {}: escape-free ASCII input was copied instead of borrowed", what, name)); }
+    }
+    Some(format!("ok len={}", n))
+}
+
+/// x-scale date zeros <n>: n leading zeros in one component: the long form equals the short form's result or is rejected
+fn op_date(w: &[&str], cx: &mut Cx) -> Option<String> {
+    use jomini::common::{Date, DateHour, PdsDate, RawDate, UniformDate};
+    if w[2] != "zeros" { return None; }
+    let n = num(w.get(3)?)?;
+    let z = "0".repeat(n);
+    let forms: Vec<(String, String)> = vec![
+        ("1444.11.11".into(), format!("{}1444.11.11", z)), ("1444.11.11".into(), format!("1444.{}11.11", z)), ("1444.11.11".into(), format!("1444.11.{}11", z)),
+        ("1444.1.2".into(), format!("1444.{}1.2", z)), ("1444.1.2".into(), format!("1444.1.{}2", z)), ("1.1.1".into(), format!("{}1.1.1", z)),
+        ("-5.3.4".into(), format!("-{}5.3.4", z)), ("1936.1.1.12".into(), format!("{}1936.1.1.12", z)), ("1936.1.1.12".into(), format!("1936.1.1.{}12", z)),
+        ("1936.1.1.5".into(), format!("1936.1.1.{}5", z)), ("1936.1.1.5".into(), format!("1936.{}1.1.5", z)), ("56379360".into(), format!("{}56379360", z)),
+        ("43808760".into(), format!("{}43808760", z)), ("2020.12.1".into(), format!("{}2020.12.1", z)), ("1.01.01".into(), format!("{}1.01.01", z)),
+    ];
+    let mut checked = 0;
+    for (short_f, long_f) in &forms {
+        macro_rules! cmp { ($name:expr, $ty:ty) => {{
+            let a = <$ty>::parse(short_f.as_bytes()).ok().map(|d| format!("{:?}", d));
+            let b = <$ty>::parse(long_f.as_bytes()).ok().map(|d| format!("{:?}", d));
+            checked += 1;
+            match (&a, &b) {
+                (_, None) => cx.obs.count(concat!("scale:date-long-rejected:", $name)),
+                (Some(x), Some(y)) if x == y => cx.obs.count(concat!("scale:date-long-accepted:", $name)),
+                _ => cx.bad("scale-date", format!("date zeros n={} {}::parse: short form {:?} gives {:?}, the form with {} leading zeros ({}..) gives {:?}", n, $name, short_f, a, n, &long_f[..long_f.len().min(24)], b)),
+            }
+        }}; }
+        cmp!("Date", Date); cmp!("DateHour", DateHour); cmp!("UniformDate", UniformDate); cmp!("RawDate", RawDate);
+        if let Ok(d) = Date::parse(long_f.as_bytes()) { let _ = d.game_fmt().to_string(); let _ = d.iso_8601().to_string(); }
+    }
+    Some(format!("ok checked={}", checked))
+}
+
+
+// ------------------------------------------------------------------------------------------
+// truncation (C19) and faults (C20)
+
+fn run6(w: &[&str], cx: &mut Cx) -> Option<String> {
+    match w[1] {
+        "trunc" => op_trunc(w, cx),
+        "fault" => op_fault(w, cx),
+        _ => None,
+    }
+}
+
+/// (key, value) of field i of the truncation documents
+fn trunc_field(text: bool, i: usize) -> (String, i64) { (if text { format!("k{}", i) } else { tok_name(tokid(i)) }, i as i64) }
+
+/// pairs read from a cut document against the complete one: `j` complete fields precede the cut; when `partial`
+/// (the cut is inside field j) one more pair may follow, its key / value a prefix of the original's
+fn judge_pairs(got: &[(String, String)], text: bool, j: usize, partial: bool) -> Result<(), String> {
+    if got.len() < j { return Err(format!("{} fields, but {} complete fields precede the cut", got.len(), j)); }
+    if got.len() > j + partial as usize { return Err(format!("{} fields, but only {} (+{} being cut) precede the cut: data was invented", got.len(), j, partial as usize)); }
+    for (i, (k, v)) in got.iter().enumerate() {
+        let (ek, ev) = trunc_field(text, i);
+        let ev = ev.to_string();
+        if i < j { if *k != ek || *v != ev { return Err(format!("complete field {} reads {}={} expected {}={}", i, k, v, ek, ev)); } }
+        else if !ek.starts_with(k.as_str()) || !ev.starts_with(v.as_str()) || k.is_empty() { return Err(format!("the field being cut reads {}={}, not a prefix of {}={}", k, v, ek, ev)); }
+    }
+    Ok(())
+}
+
+/// x-scale trunc text|bin <fields> <cut>,<cut>,...
+fn op_trunc(w: &[&str], cx: &mut Cx) -> Option<String> {
+    let text = match w[2] { "text" => true, "bin" => false, _ => return None };
+    let n = num(w.get(3)?)?.min(0xE000);
+    let cuts: Vec<usize> = w.get(4)?.split(',').map(|s| s.parse().ok()).collect::<Option<Vec<usize>>>()?;
+    let doc = build(if text { "intfields" } else { "tokfields" }, n, 0)?;
+    let (full, offs) = if text { render_text(&doc, 0) } else { render_bin(&doc)? };
+    let res = resolver();
+    let (mut oks, mut errs) = (0, 0);
+    for cut in cuts {
+        if cut > full.len() { continue; }
+        let d = &full[..cut];
+        // j = number of fields that end at or before the cut
+        let j = offs.partition_point(|o| *o <= cut) - 1;
+        let boundary = offs[j] == cut;
+        // text: a cut right behind a complete value (before its newline) leaves a well-formed document too
+        let partial = text && !boundary;
+        // binary: a single stray byte behind a complete field (half of the next token id) is ignored by the tape parser and
+        // the on-demand deserializer -- the quirk the C19 slice documents (`at_boundary` in c19.rs); never more than one byte
+        let stray = !text && !boundary && cut == offs[j] + 1;
+        let what = format!("trunc {} n={} cut at byte {} (inside field {}, boundary {})", w[2], n, cut, j, boundary);
+        let mut verdict = |name: &str, r: Result<Vec<(String, String)>, String>, cx: &mut Cx| {
+            match r {
+                Ok(got) => {
+                    oks += 1;
+                    if !text && !boundary && !stray { cx.bad("scale-truncated-ok", format!("{} path {}: binary input cut inside a field is accepted with {} fields", what, name, got.len())); }
+                    else if let Err(e) = judge_pairs(&got, text, j, partial) { cx.bad("scale-truncated-ok", format!("{} path {}: {}", what, name, e)); }
+                }
+                Err(e) => { errs += 1; if boundary { cx.bad("scale-truncated-ok", format!("{} path {}: a cut at a field boundary leaves a well-formed document, yet: {}", what, name, e)); } }
+            }
+        };
+        let as_str = |p: Pairs| p.0.into_iter().map(|(k, v)| (k, v.to_string())).collect::<Vec<_>>();
+        if text {
+            verdict("tape", TextTape::from_slice(d).map_err(|e| e.to_string()).and_then(|t| {
+                let toks = t.tokens();
+                if toks.iter().any(|x| !matches!(x, TextToken::Unquoted(_))) { return Ok(vec![("<non-scalar token on the tape>".to_string(), String::new())]); }
+                let mut v = vec![];
+                for c in toks.chunks(2) { v.push((String::from_utf8_lossy(c[0].as_scalar().unwrap().as_bytes()).into_owned(), c.get(1).map(|x| String::from_utf8_lossy(x.as_scalar().unwrap().as_bytes()).into_owned()).unwrap_or_default())); }
+                Ok(v)
+            }), cx);
+            verdict("from_windows1252_slice", jomini::text::de::from_windows1252_slice::<Pairs>(d).map(as_str).map_err(|e| e.to_string()), cx);
+            verdict("from_utf8_reader", jomini::text::de::from_utf8_reader::<Pairs, _>(d).map(as_str).map_err(|e| e.to_string()), cx);
+            verdict("reader cap=4096 R7", TextDeserializer::from_windows1252_reader(TextReader::builder().buffer_len(4096).build(SchedReader::new(d, vec![Step::Repeat(7)]))).deserialize::<Pairs>().map(as_str).map_err(|e| e.to_string()), cx);
+        } else {
+            verdict("tape", BinaryTape::from_slice(d).map_err(|e| e.to_string()).and_then(|t| {
+                let mut v = vec![];
+                for c in t.tokens().chunks(2) {
+                    match (&c[0], c.get(1)) { (BinaryToken::Token(id), Some(BinaryToken::I32(x))) => v.push((tok_name(*id), x.to_string())), o => v.push((format!("<{:?}>", o), String::new())) }
+                }
+                Ok(v)
+            }), cx);
+            verdict("tape de", BinaryTape::from_slice(d).and_then(|t| bin_builder().from_tape(&t, res).deserialize::<Pairs>()).map(as_str).map_err(|e| e.to_string()), cx);
+            verdict("from_slice", bin_builder().from_slice(d, res).deserialize::<Pairs>().map(as_str).map_err(|e| e.to_string()), cx);
+            verdict("from_reader", bin_builder().from_reader(d, res).deserialize::<Pairs>().map(as_str).map_err(|e| e.to_string()), cx);
+            let mut b = bin_builder();
+            b.reader_config(BinReader::builder().buffer_len(4096));
+            verdict("from_reader cap=4096 R7", b.from_reader(SchedReader::new(d, vec![Step::Repeat(7)]), res).deserialize::<Pairs>().map(as_str).map_err(|e| e.to_string()), cx);
+        }
+    }
+    Some(format!("ok accepted={} rejected={}", oks, errs))
+}
+
+struct Counting<'a> { inner: SchedReader<'a>, calls: std::rc::Rc<std::cell::Cell<usize>>, delivered: std::rc::Rc<std::cell::Cell<usize>> }
+impl<'a> Read for Counting<'a> {
+    fn read(&mut self, b: &mut [u8]) -> std::io::Result<usize> { self.calls.set(self.calls.get() + 1); let r = self.inner.read(b); self.delivered.set(self.inner.pos); r }
+}
+
+/// x-scale fault text|bin <fields> <cap|default> <step|->: a fault (transient F, persistent P) at EVERY read call of a large
+/// document (each 32 KiB refill of the default buffer among them) surfaces as an I/O error after a prefix of the tokens
+fn op_fault(w: &[&str], cx: &mut Cx) -> Option<String> {
+    let text = match w[2] { "text" => true, "bin" => false, _ => return None };
+    let n = num(w.get(3)?)?.min(0xE000);
+    let cap = match *w.get(4)? { "default" => None, c => Some(num(c)?) };
+    let step = match *w.get(5)? { "-" => None, s => Some(num(s)?) };
+    let doc = build(if text { "intfields" } else { "tokfields" }, n, 0)?;
+    let d = if text { render_text(&doc, 0).0 } else { render_bin(&doc)?.0 };
+    let res = resolver();
+    let exp_pairs = Pairs((0..n).map(|i| trunc_field(text, i)).collect());
+    let sched = |pre: usize, fault: Option<Step>| -> Vec<Step> {
+        let mut v: Vec<Step> = (0..pre).map(|_| Step::Give(step.unwrap_or(usize::MAX / 2))).collect();
+        if let Some(f) = fault { v.push(f); }
+        if let Some(s) = step { v.push(Step::Repeat(s)); }
+        v
+    };
+    // token level
+    let texp = text_lexemes(&doc); let bexp = bin_lexemes(&doc);
+    let tok_run = |steps: Vec<Step>| -> (Run, usize, usize) {
+        let (calls, delivered) = (std::rc::Rc::new(std::cell::Cell::new(0)), std::rc::Rc::new(std::cell::Cell::new(0)));
+        let rd = Counting { inner: SchedReader::new(&d, steps), calls: calls.clone(), delivered: delivered.clone() };
+        let run = if text {
+            let mut r = match cap { Some(c) => TextReader::builder().buffer_len(c).build(rd), None => TextReader::new(rd) };
+            drain_text(&mut r, &texp, 0)
+        } else {
+            let mut r = match cap { Some(c) => BinReader::builder().buffer_len(c).build(rd), None => BinReader::new(rd) };
+            drain_bin(&mut r, &bexp, 0)
+        };
+        (run, calls.get(), delivered.get())
+    };
+    let de_run = |steps: Vec<Step>| -> Result<Pairs, jomini::Error> {
+        let rd = SchedReader::new(&d, steps);
+        if text {
+            let r = match cap { Some(c) => TextReader::builder().buffer_len(c).build(rd), None => TextReader::new(rd) };
+            TextDeserializer::from_utf8_reader(r).deserialize::<Pairs>()
+        } else {
+            let mut b = bin_builder();
+            if let Some(c) = cap { b.reader_config(BinReader::builder().buffer_len(c)); }
+            b.from_reader(rd, res).deserialize::<Pairs>()
+        }
+    };
+    let ntok = if text { texp.len() } else { bexp.len() };
+    let (clean, calls, _) = tok_run(sched(0, None));
+    let what = format!("fault {} n={} cap {:?} step {:?}", w[2], n, cap, step);
+    if clean.mismatch.is_some() || clean.fin != Fin::Clean || clean.matched != ntok || clean.pos != d.len() { cx.bad("scale-stream-mismatch", format!("{}: fault-free run: {:?} {:?} after {} of {} tokens, position {}", what, clean.mismatch, clean.fin, clean.matched, ntok, clean.pos)); return Some("err".into()); }
+    match de_run(sched(0, None)) { Ok(p) if p == exp_pairs => {}, Ok(p) => cx.bad("scale-paths-disagree", format!("{}: fault-free deserialization differs: {}", what, first_diff(&p, &exp_pairs))), Err(e) => cx.bad("scale-paths-disagree", format!("{}: fault-free deserialization fails: {}", what, e)) }
+    // fault at call k: every call when there are few, else the first, the last and a spread
+    let ks: Vec<usize> = if calls <= 40 { (0..calls).collect() } else { let mut v: Vec<usize> = (0..8).collect(); v.extend((1..24).map(|i| i * calls / 24)); v.extend([calls - 2, calls - 1]); v.sort(); v.dedup(); v };
+    let mut faults = 0;
+    for &k in &ks {
+        for f in [Step::Fail, Step::FailForever] {
+            let persistent = f == Step::FailForever;
+            let (run, _, delivered) = tok_run(sched(k, Some(f.clone())));
+            faults += 1;
+            let fw = format!("{}: {} fault at read call {} of {}", what, if persistent { "persistent" } else { "transient" }, k, calls);
+            if let Some(m) = &run.mismatch { cx.bad("scale-fault-wrong-tokens", format!("{}: tokens before the failure differ from the fault-free ones: {}", fw, m)); }
+            else if run.fin != Fin::Io { cx.bad("scale-fault-not-io", format!("{}: the run ended with {:?} after {} tokens instead of an I/O error", fw, run.fin, run.matched)); }
+            if run.pos > delivered { cx.bad("scale-position", format!("{}: position() {} beyond the {} bytes delivered", fw, run.pos, delivered)); }
+            match de_run(sched(k, Some(f))) {
+                Err(e) if matches!(e.kind(), jomini::ErrorKind::Io(_)) => {}
+                Err(e) => cx.bad("scale-fault-not-io", format!("{}: the deserializer reports `{}` instead of an I/O error", fw, e)),
+                Ok(p) => cx.bad("scale-fault-not-io", format!("{}: the deserializer returns Ok with {} fields ({} expected): the failure was swallowed", fw, p.0.len(), n)),
+            }
+        }
+    }
+    Some(format!("ok calls={} faults={}", calls, faults))
+}
+
+// ------------------------------------------------------------------------------------------
+// skip_unquoted_value across a long run of blanks (C09) and numbers through the JSON narrowing (C16)
+
+/// x-scale tskipu <pattern> <n>: `a=rgb<n blanks>{ body } z=1` (pattern `nobrace`: no body): after reading `rgb`,
+/// skip_unquoted_value lands on `z`, for the slice reader and every buffer / schedule; never BufferFull
+fn op_tskipu(w: &[&str], cx: &mut Cx) -> Option<String> {
+    let n = num(w.get(3)?)?;
+    let run: Vec<u8> = match w[2] {
+        "sp" | "nobrace" => vec![b' '; n], "tab" => vec![b'\t'; n], "nl" => vec![b'\n'; n],
+        "mix" => (0..n).map(|i| b" \t\n\r"[(i * 7 + i / 5) % 4]).collect(),
+        "eu4" => (0..n).map(|i| b"\n\t\t\t"[i % 4]).collect(),
+        _ => return None,
+    };
+    let mut d = b"a=rgb".to_vec();
+    d.extend_from_slice(&run);
+    if w[2] != "nobrace" { d.extend_from_slice(b"{ 1 \"}\" { 2 } #}\n 3 } "); } else if n == 0 { d.push(b' '); }
+    d.extend_from_slice(b"z=1");
+    let pre = [TL::U(b"a".to_vec()), TL::Eq, TL::U(b"rgb".to_vec())];
+    let post = [TL::U(b"z".to_vec()), TL::Eq, TL::U(b"1".to_vec())];
+    let mut cfgs: Vec<(Option<usize>, Vec<Step>)> = vec![(Some(0), vec![])];
+    cfgs.extend(reader_configs(&[16, 64, 255, 256, 4096, n.max(17) - 1, n.max(16), n.max(16) + 1]));
+    let mut runs = 0;
+    for (cap, sched) in cfgs {
+        let what = format!("tskipu {} n={} {}", w[2], n, if cap == Some(0) { "slice reader".to_string() } else { show_cfg(cap, &sched) });
+        macro_rules! go { ($r:expr) => {{
+            let mut r = $r;
+            let mut ok = true;
+            for (i, e) in pre.iter().enumerate() {
+                match r.read() { Ok(t) if tl_eq(&t, e) => {}, Ok(t) => { cx.bad("scale-stream-mismatch", format!("{}: token {} before the skip: expected {} observed {}", what, i, show_tl(e), show_ttok(&t))); ok = false; break; }
+                    Err(e) => { cx.bad("scale-stream-mismatch", format!("{}: error {:?} at token {} before the skip", what, e.kind(), i)); ok = false; break; } }
+            }
+            if ok {
+                match r.skip_unquoted_value() {
+                    Err(e) => cx.bad(if matches!(e.kind(), jomini::text::ReaderErrorKind::BufferFull) { "scale-bufferfull-spurious" } else { "scale-skip-lands-wrong" }, format!("{}: skip_unquoted_value failed: {:?} at position {}", what, e.kind(), e.position())),
+                    Ok(()) => {
+                        let run = drain_text(&mut r, &post, 0);
+                        if let Some(mm) = &run.mismatch { cx.bad("scale-skip-lands-wrong", format!("{}: after the skip: {}", what, mm)); }
+                        else if run.fin != Fin::Clean || run.matched != post.len() { cx.bad("scale-skip-lands-wrong", format!("{}: after the skip the stream ended with {:?} at token {} of {}", what, run.fin, run.matched, post.len())); }
+                        else if run.pos != d.len() { cx.bad("scale-position", format!("{}: position() {} after the run, input length {}", what, run.pos, d.len())); }
+                    }
+                }
+            }
+            runs += 1;
+        }}; }
+        match cap {
+            Some(0) => go!(TextReader::from_slice(&d)),
+            Some(c) => go!(TextReader::builder().buffer_len(c).build(SchedReader::new(&d, sched.clone()))),
+            None => go!(TextReader::new(SchedReader::new(&d, sched.clone()))),
+        }
+    }
+    Some(format!("ok runs={}", runs))
+}
+
+/// x-scale jsonnum zeros|frac|digits <n>: the number strings of `num` as unquoted values through the JSON conversion: a
+/// JSON number equals Rust's reading of the text (exactly for integers, 2 ulp for long fractions); otherwise the text itself
+fn op_jsonnum(w: &[&str], cx: &mut Cx) -> Option<String> {
+    let n = num(w.get(3)?)?;
+    let strs: Vec<String> = match w[2] {
+        "zeros" => zeros_cases(n).into_iter().map(|(_, l)| l).collect(),
+        "frac" => frac_cases(n),
+        "digits" => { let mut v = vec![]; for first in ['1', '9'] { for rest in ['0', '9', '5'] { for sign in ["", "-", "+"] { v.push(format!("{}{}{}", sign, first, rest.to_string().repeat(n - 1))); } } } v }
+        _ => return None,
+    };
+    let doc = Doc { fields: strs.iter().enumerate().map(|(i, s)| (K::U(named("k", i)), V::U(s.clone().into_bytes()))).collect(), gap: vec![], inner: false };
+    let (d, _) = render_text(&doc, 0);
+    let tape = match TextTape::from_slice(&d) { Ok(t) => t, Err(e) => { cx.bad("scale-tape-mismatch", format!("jsonnum {} n={}: rejected: {}", w[2], n, e)); return Some("err".into()); } };
+    let (mut numbers, mut strings) = (0, 0);
+    for narrowing in [TypeNarrowing::All, TypeNarrowing::Unquoted] {
+        let out = tape.windows1252_reader().json().with_options(JsonOptions::new().with_type_narrowing(narrowing)).to_vec();
+        let j = match parse_json(&out) { Ok(J::Obj(m)) => m, o => { cx.bad("scale-json", format!("jsonnum {} n={}: output is not a JSON object: {}", w[2], n, short(&o))); return Some("err".into()); } };
+        if j.len() != strs.len() { cx.bad("scale-json", format!("jsonnum {} n={}: {} members expected {}", w[2], n, j.len(), strs.len())); continue; }
+        for ((_, v), txt) in j.iter().zip(&strs) {
+            let what = format!("jsonnum {} n={} value {}..", w[2], n, &txt[..txt.len().min(14)]);
+            let is_int = !txt.contains('.');
+            let mag = txt.trim_start_matches(|c| c == '+' || c == '-').trim_start_matches('0');
+            let int_small = is_int && (mag.len() <= 15 || mag.parse::<u64>().map(|u| u < (1 << 53)).unwrap_or(false));
+            match v {
+                J::Int(_) | J::Float(_) => {
+                    numbers += 1;
+                    let x = match v { J::Int(i) => *i as f64, J::Float(b) => f64::from_bits(*b), _ => unreachable!() };
+                    if is_int && !int_small { cx.bad("scale-json", format!("{}: an integer f64 cannot be trusted with became the JSON number {:e}", what, x)); }
+                    else if is_int { let r: i64 = txt.trim_start_matches('+').parse().unwrap(); if *v != J::Int(r) && x != r as f64 { cx.bad("scale-json", format!("{}: JSON number {} expected {}", what, x, r)); } }
+                    else if let Err(e) = f64_ok(txt, x) { cx.bad("scale-json", format!("{}: JSON number {}", what, e)); }
+                }
+                J::Str(t) => { strings += 1; if t != txt { cx.bad("scale-json", format!("{}: kept as a string but changed ({} vs {} chars)", what, t.len(), txt.len())); } else if int_small { cx.bad("scale-json", format!("{}: an integer below 2^53 was not narrowed to a number", what)); } }
+                o => cx.bad("scale-json", format!("{}: became {}", what, short(o))),
+            }
+        }
+    }
+    Some(format!("ok numbers={} strings={}", numbers, strings))
+}
